@@ -47,6 +47,7 @@ def run(tier, replay=None):
     tmp = scratch_dir()
     try:
         blocks, _ = pair_k.run_pairs(cases, tmp)
+        by_case = {c_["id"]: c_ for c_ in cases}
         bad = []; nz = 0; known = {}
         active = set(k.get("id") for k in load_known() if k.get("status") == "known")
         for (i, LA, LB, L, gk) in pairs:
@@ -69,8 +70,14 @@ def run(tier, replay=None):
                 # (triple-based) radial code: otherwise the two orders took different branches, which is the property itself
                 tf = blocks["f%d" % i].get("trace", [0] * 12); tr_ = blocks["r%d" % i].get("trace", [0] * 12)
                 same_path = (tf[0] + tf[1] > 0) == (tr_[0] + tr_[1] > 0) and (tf[0] + tf[1] > 0)
+                cs = by_case["f%d" % i]
+                cscale = sum(abs(x) for x in cs["shells"][0]["d"]) * sum(abs(x) for x in cs["shells"][1]["d"]) * sum(abs(p["d"]) for p in cs["ecps"][0]["p"])
                 if cause and same_path and all(x in active for x in cause.split("+")):
                     known.setdefault(cause, []).append((i, dv, sc))
+                elif dv <= 1e-12 * cscale and "F-C07-floor" in active:
+                    # a block so small that its largest element is within ~1e6 of the absolute accuracy of the quadrature-based integrals:
+                    # the asymmetry is rounding-level in absolute terms (below 1e-12 x the coefficient product)
+                    known.setdefault("F-C07-floor", []).append((i, dv, sc))
                 else:
                     bad.append((i, "class (LA=%d,LB=%d,lambda_max=%d) geometry %s: max |V(A,B) - V(B,A)^T| = %.3e on scale %.3e (restored by: %s)" % (LA, LB, L, gk, dv, sc, cause)))
         # integrator matrices
@@ -101,6 +108,9 @@ def run(tier, replay=None):
         by = {c["id"]: c for c in cases}
         for fid, lst in known.items():
             w = max(lst, key=lambda t: t[1] / t[2])
+            if fid == "F-C07-floor":
+                res.known("%s: %d class/geometry pairs with a tiny block are asymmetric beyond 1e-6 of its largest element but below 1e-12 x the coefficient product in absolute terms (largest: pair %d, %.2e on scale %.2e)" % (fid, len(lst), w[0], w[1], w[2]))
+                continue
             res.known("%s: %d class/geometry pairs are asymmetric beyond 1e-6 and symmetric again when that decision is forced the other way (largest: pair %d, %.2e on scale %.2e)" % (fid, len(lst), w[0], w[1], w[2]))
         res.cov["known_finding_cases"] = {k: len(v) for k, v in known.items()}
         for i, msg in bad[:3]:
